@@ -85,6 +85,8 @@ type c11Rec struct {
 
 	listened      bool
 	listenTimeout uint64
+	listenSeq     uint64   // simulator clock at the listen call
+	listenMsg     *big.Int // message the done check was armed with
 	included      []group.MemberIndex
 	qualified     []int // node indexes of qualified operators (signing, white-box)
 	qualObserved  bool
@@ -103,6 +105,11 @@ type c11Member struct {
 	blocks *verifadapt.NodeBlocks
 	gates  *verifsim.Gates
 	ending *atomic.Bool
+	clock  *atomic.Uint64
+
+	resEnd     uint64
+	resTimeout uint64
+	resSig     *tecdsa.Signature
 
 	mu       sync.Mutex
 	recs     []*c11Rec
@@ -181,6 +188,7 @@ func (d *c11Done) listen(ctx context.Context, message *big.Int, attemptNumber ui
 		m.mu.Lock()
 		x := m.rec(uint(attemptNumber))
 		x.listened, x.listenTimeout, x.included = true, attemptTimeoutBlock, c11Copy(attemptMembersIndexes)
+		x.listenSeq, x.listenMsg = m.clock.Load(), new(big.Int).Set(message)
 		ready := x.ready
 		m.mu.Unlock()
 		// white-box observation of the retry selection this member just made
@@ -256,6 +264,14 @@ type c11Flight struct {
 	key    string
 	left   []int // receivers that never got a copy
 	served []int // receivers that got one (retransmissions go there while the sender's context lives)
+	done   *signingDoneMessage
+}
+
+// c11DoneDelivery: one signing-done message handed to one node.
+type c11DoneDelivery struct {
+	seq  uint64
+	from int
+	dm   *signingDoneMessage
 }
 
 func c11SetKey(xs []group.MemberIndex) string {
@@ -278,6 +294,8 @@ func c11Engine(t *testing.T, r *verifsim.Run, mode string) {
 	// ---- configuration ----
 	var isDkg bool
 	switch mode {
+	case "C35":
+		isDkg = false
 	case "C09":
 		isDkg = !tp.Chance("signing-loop", 1, 4)
 	default:
@@ -340,6 +358,8 @@ func c11Engine(t *testing.T, r *verifsim.Run, mode string) {
 	var failDepth int
 	if mode == "C09" && isDkg {
 		failDepth = depthChoices[tp.Weighted("fail-depth", 1, 1, 1, 2, 4, 4, 3, 2)]
+	} else if mode == "C35" {
+		failDepth = depthChoices[tp.Weighted("fail-depth", 2, 3, 2, 1)]
 	} else {
 		failDepth = depthChoices[tp.Weighted("fail-depth", 3, 3, 3, 2, 1, 1, 0, 0)]
 	}
@@ -376,6 +396,10 @@ func c11Engine(t *testing.T, r *verifsim.Run, mode string) {
 	validator := group.NewMembershipValidator(lg, operators, signingImpl)
 	gates := verifsim.NewGates()
 	ending := &atomic.Bool{}
+	clock := &atomic.Uint64{}
+	doneDeliv := make([][]c11DoneDelivery, k)
+	forged := 0
+	stdSig := &tecdsa.Signature{R: big.NewInt(200), S: big.NewInt(300), RecoveryID: 1}
 	rootCtx, rootCancel := context.WithCancel(context.Background())
 	defer rootCancel()
 
@@ -384,7 +408,7 @@ func c11Engine(t *testing.T, r *verifsim.Run, mode string) {
 
 	members := make([]*c11Member, n)
 	for s := 0; s < n; s++ {
-		m := &c11Member{idx: group.MemberIndex(s + 1), node: seatNode[s], blocks: blocks[seatNode[s]], gates: gates, ending: ending,
+		m := &c11Member{idx: group.MemberIndex(s + 1), node: seatNode[s], blocks: blocks[seatNode[s]], gates: gates, ending: ending, clock: clock,
 			curErrAt: map[int]bool{}, startAt: startBlock}
 		if lateStarts && tp.Chance("member-late", 1, 3) {
 			m.startAt = startBlock + uint64(1+tp.Choose("late-by", int(win.length())*3))
@@ -449,6 +473,14 @@ func c11Engine(t *testing.T, r *verifsim.Run, mode string) {
 				var res *signingRetryLoopResult
 				res, err = m.srl.start(rootCtx, waitFn, curFn, m.signAttempt)
 				ok = res != nil
+				if res != nil && err == nil {
+					m.mu.Lock()
+					m.resEnd, m.resTimeout = res.latestEndBlock, res.attemptTimeoutBlock
+					if res.result != nil {
+						m.resSig = res.result.Signature
+					}
+					m.mu.Unlock()
+				}
 			}
 			m.mu.Lock()
 			m.finished, m.resOK = true, ok && err == nil
@@ -484,6 +516,7 @@ func c11Engine(t *testing.T, r *verifsim.Run, mode string) {
 					continue
 				}
 				f.desc = fmt.Sprintf("done m=%d att=%d end=%d", dm.senderID, dm.attemptNumber, dm.endBlock)
+				f.done = dm
 				f.key = fmt.Sprintf("%02d/d/%03d/%d", e.From, dm.senderID, dm.attemptNumber)
 			}
 			for o := 0; o < k; o++ {
@@ -501,6 +534,10 @@ func c11Engine(t *testing.T, r *verifsim.Run, mode string) {
 	}
 	deliver := func(pi int, to int, keep bool) {
 		f := pool[pi]
+		seq := clock.Add(1)
+		if f.done != nil {
+			doneDeliv[to] = append(doneDeliv[to], c11DoneDelivery{seq, f.env.From, f.done})
+		}
 		cnt := sn.Deliver(f.env, to)
 		r.Logf("deliver %s -> node %d (h=%d) handlers=%d", f.desc, to, blocks[to].Height(), cnt)
 		synctest.Wait()
@@ -646,6 +683,9 @@ func c11Engine(t *testing.T, r *verifsim.Run, mode string) {
 				ks = append(ks, kindW{"tick-one", 8})
 			}
 		}
+		if mode == "C35" && forged < 12 && len(ks) > 0 && maxSeenAttempt() >= 1 {
+			ks = append(ks, kindW{"forge-done", 3})
+		}
 		if len(ks) == 0 {
 			r.Probe("nothing-to-do")
 			break
@@ -736,6 +776,39 @@ func c11Engine(t *testing.T, r *verifsim.Run, mode string) {
 				c -= len(f.left)
 			}
 			prune()
+		case "forge-done":
+			// a (Byzantine or merely late) group member publishes a
+			// confirmation for its own seat, labelled with the previous, the
+			// current or any earlier attempt
+			forged++
+			o := tp.Choose("forge-node", k)
+			seat := seatsOfNode[o][tp.Choose("forge-seat", len(seatsOfNode[o]))] + 1
+			cur := int(maxSeenAttempt())
+			a := cur
+			switch tp.Weighted("forge-attempt", 3, 2, 1) {
+			case 0:
+				a = cur - 1
+			case 2:
+				a = 1 + tp.Choose("forge-attempt-n", cur)
+			}
+			if a < 1 {
+				a = 1
+			}
+			end := win.timeout(startBlock, uint(a)) - uint64(tp.Choose("forge-end-early", 12))
+			if tp.Chance("forge-end-extreme", 1, 10) {
+				end = c35ExtremeEnd(tp.Choose("forge-end-extreme-value", 6), win.timeout(startBlock, uint(a)))
+			}
+			sg := stdSig
+			if tp.Chance("forge-other-signature", 1, 10) {
+				sg = &tecdsa.Signature{R: big.NewInt(201), S: big.NewInt(300), RecoveryID: 1}
+			}
+			dm := &signingDoneMessage{senderID: group.MemberIndex(seat), message: new(big.Int).Set(seedInt), attemptNumber: uint64(a), signature: sg, endBlock: end}
+			_ = nodes[o].Channel("c11").Send(rootCtx, dm)
+			r.Fault("forged-confirmation")
+			if a < cur {
+				r.Fault("stale-attempt-confirmation")
+			}
+			r.Logf("forge done from-node=%d seat=%d att=%d (current %d) end=%d std-sig=%v", o, seat, a, cur, end, sg == stdSig)
 		case "fast-forward":
 			by := gap - 1
 			for o := 0; o < k; o++ {
@@ -798,6 +871,10 @@ func c11Engine(t *testing.T, r *verifsim.Run, mode string) {
 			r.Failf(mode+":panic-in-retry-loop", "member %d: %s", m.idx, m.panicked)
 		}
 		m.mu.Unlock()
+	}
+	if mode == "C35" {
+		c35LoopOracle(r, members, seatNode, doneDeliv, seedInt)
+		return
 	}
 	c11Oracles(r, mode, isDkg, members, seatNode, seatsOfNode, params, win, startBlock, addrOrder)
 }
